@@ -243,7 +243,13 @@ func tokText(t tok, cas int) (string, bool) {
 	switch t.T {
 	case "KW":
 		return kwCase(t.V, cas), true
-	case "P", "IDENT", "INT", "RAW":
+	case "INT":
+		// one spelling in three writes decimal integers with leading zeros (the same number in SQL; no other radix exists)
+		if cas == 2 && len(t.V) > 0 && t.V[0] >= '0' && t.V[0] <= '9' {
+			return "00" + t.V, true
+		}
+		return t.V, true
+	case "P", "IDENT", "RAW":
 		return t.V, true
 	case "STR":
 		return "'" + t.V + "'", true
